@@ -105,6 +105,7 @@ impl Profile {
                 (3, Kind::Dyn),
                 (2, Kind::Arr),
                 (3, Kind::P),
+                (4, Kind::DB),
                 (5, Kind::Set),
             ],
             neg_adjust: true,
